@@ -2834,6 +2834,25 @@ func (a *Agent) handlePeerDisconnect(conn *peer.Connection, err error) {
 		logging.KeyPeerID, peerID.ShortString(),
 		logging.KeyError, err)
 
+	a.cleanupPeerState(peerID)
+
+	// A frame of the lost connection can still be in its handler (taken off
+	// the connection's queue just before it went away): whatever that handler
+	// sets up now belongs to a connection that no longer exists. Wait for the
+	// handlers in progress, no new ones start, and sweep once more. The first
+	// sweep comes first because it is what releases a handler that waits for
+	// a local consumer of one of the peer's streams.
+	if !conn.StopDispatch(2 * time.Second) {
+		a.logger.Warn("frame handler of a lost connection still running",
+			logging.KeyPeerID, peerID.ShortString())
+	}
+	a.cleanupPeerState(peerID)
+}
+
+// cleanupPeerState removes everything that exists only because of the
+// connection to peerID: relayed streams, tunnels that end or begin here,
+// file transfers, shell sessions and learned routes. It is idempotent.
+func (a *Agent) cleanupPeerState(peerID identity.AgentID) {
 	// Clean up relay streams involving this peer
 	a.cleanupRelaysForPeer(peerID)
 
